@@ -58,6 +58,11 @@ inductive HPhase | pre | started | abandoned | drained
 structure Cfg where
   /-- capacity of `outputQueue` -/
   cap : Nat
+  /-- capacities of `sendQueue`, `sendDoneQueue`, `stallControl` (internal tuning of the
+  implementation; the theorems hold for every value ≥ 1) -/
+  capSend : Nat
+  capDone : Nat
+  capStall : Nat
   /-- `true` = before the repair of F-C18-b: nothing drains `outputQueue` when the handlers are
   never started. -/
   drainBug : Bool
@@ -117,16 +122,17 @@ def hStep (c : Cfg) (s : Sys) : Choice → Option Sys
     match s.qh, s.outQ with
     | .main, m :: rest =>
       if s.waiting then some { s with outQ := rest, pending := s.pending ++ [m] }
-      else if s.sendQ.length < 1 then
+      else if s.sendQ.length < c.capSend then
         some { s with outQ := rest, sendQ := s.sendQ ++ [m], waiting := true }
       else none
     | _, _ => none
   | .qRecvDone =>
+    -- (at most one completion is ever outstanding, for any capacity: invariant `busy ≤ 1`)
     if s.qh = .main ∧ s.sendDone = 1 then
       match s.pending with
       | [] => some { s with sendDone := 0, waiting := false }
       | m :: rest =>
-        if s.sendQ.length < 1 then
+        if s.sendQ.length < c.capSend then
           some { s with sendDone := 0, pending := rest, sendQ := s.sendQ ++ [m] }
         else none
     else none
@@ -150,14 +156,14 @@ def hStep (c : Cfg) (s : Sys) : Choice → Option Sys
   | .oStep =>
     match s.oh with
     | .holding m =>   -- `p.stallControl <- …` (blocks while the buffer is full)
-      if s.stallCh < 1 then some { s with oh := .announced m, stallCh := s.stallCh + 1 } else none
+      if s.stallCh < c.capStall then some { s with oh := .announced m, stallCh := s.stallCh + 1 } else none
     | .announced m =>
       if s.disc then some { s with oh := .wrote m true }                      -- write skipped
       else if s.connLost then some { s with oh := .wrote m false, disc := true } -- error: Disconnect
       else some { s with oh := .wrote m true, written := s.written ++ [m] }
     | .wrote m ok =>
       some { s with done := s.done ++ [m], oh := if ok then .owesDone else .main }
-    | .owesDone => if s.sendDone < 1 then some { s with sendDone := s.sendDone + 1, oh := .main } else none
+    | .owesDone => if s.sendDone < c.capDone then some { s with sendDone := s.sendDone + 1, oh := .main } else none
     | .waitQ => if s.qh = .done then some { s with oh := .cleanup } else none
     | .cleanup =>
       match s.sendQ with
